@@ -67,6 +67,15 @@ CHECKS = {
             "Trusted: Lean kernel, model = code (tied per operation), C10 slot model. One known finding (second Router.compile_program "
             "below v8 has slot-id ties whose numbering depends on set order; programs equal modulo slot renaming); one defect repaired.",
             "DESIGN.md Part II C11"),
+    "C06": ("proof",
+            "Lean 4 proof: descr_agree / uintSet_range / encodeTuple_correct / pySet_correct on a model of the TypeSpec descriptors and of the byte computation emitted by _encode_tuple, uint_set/uint_encode, Array.set, String/Address.set, over the ARC-4 specification; descriptor correspondence on every type shape; real programs built through the public API, compiled for v5..10 in scratch-slot and frame-variable back-ends, executed on the AVM spec and compared with algosdk",
+            "For every nested type and well-typed input the modelled set() computes exactly Arc4.encode of the value; a Python int that "
+            "does not fit is rejected while the program is built, an expression that does not fit makes the program fail, offsets >= 2^16 "
+            "fail (build or run) and never wrap. Tied to the real code by descriptor comparison on every type shape and by executing the "
+            "real TEAL of generated (type, value) programs and comparing the logged bytes with algosdk, Arc4.encode and the model.",
+            "Trusted: Lean kernel, Arc4.lean (validated against algosdk every run), transcription of the ABI encoders (tied per case), AVM "
+            "spec. Offsets near 2^16 are unreachable by execution (4096-byte AVM limit): that part rests on the theorem alone.",
+            "DESIGN.md Part II C06"),
     "C07": ("proof",
             "Lean 4 proof: indexTuple_correct / arrayElem_inrange_correct / length_correct / path_correct on a model of the index computation the emitted decoding code performs, against the ARC-4 specification (decode_encode, split_assemble); substring_choice_equiv for every opcode choice; real decode()+element-access programs executed on the AVM spec and compared with algosdk and the Lean codec",
             "For all type shapes, values and in-range positions the modelled slice/bit positions are the ones the ARC-4 specification reads; "
